@@ -96,6 +96,26 @@ def run(c):
                 w = json.loads(json.dumps(base))
                 w["mand"][k] = dict(p=True, iei=0, len=s["max"], v=[(i * 5 + 1) % 256 for i in range(s["max"])])
                 add(m, w, via="body")
+    # length sweep: the first variable-length element of a message at every length 1..300 (quick: every third, offset by the
+    # seed), with the elements behind it present - what the encoder emits for a LATER element does not depend on where in its
+    # output buffer (at which capacity boundary of a growing buffer) that element happens to start
+    for m, ws in bym.items():
+        t = TBL[m]
+        mand = [s_ for s_ in t["slots"] if s_["mand"]]; optslots = [s_ for s_ in t["slots"] if not s_["mand"]]
+        per_slot = {}
+        for w in ws:
+            pres = [k for k, s_ in enumerate(w["opt"]) if s_["p"]]
+            if len(pres) == 1: per_slot.setdefault(pres[0], w)
+        tail = merge_wants(m, list(per_slot.values())) if per_slot else json.loads(json.dumps(ws[0]))
+        var = next(((("mand", k) for k, s_ in enumerate(mand) if s_["lsz"] > 0 and s_["data"] == "buf" and s_["max"] >= 300)), None) or \
+              next(((("opt", k) for k, s_ in enumerate(optslots) if s_["lsz"] > 0 and s_["data"] == "buf" and s_["max"] >= 300 and k < len(optslots) - 1)), None)
+        if var is None: continue
+        kind, k = var
+        sl = (mand if kind == "mand" else optslots)[k]
+        for n in range(max(1, sl["min"]) + (0 if thorough else c.seed % 3), 301, 1 if thorough else 3):
+            w = json.loads(json.dumps(tail))
+            w[kind][k] = dict(p=True, iei=(0 if kind == "mand" else sl["iei"]), len=n, v=[(i * 11 + n) % 256 for i in range(n)])
+            add(m, w, via="plain" if t["family"] != "ENV" else "body")
     # two large elements in one message, together beyond 64 KiB: a 16-bit "octets left" or total-length computation wraps
     # only then (one element at its true maximum leaves every remainder below 2^16)
     for m, ws in sorted(bym.items()):
